@@ -1,6 +1,7 @@
 import VaxisModel.Model.SimpleList
 import VaxisModel.Model.DynList
 import VaxisModel.Gen.ListFacts
+import VaxisModel.Gen.DynSkel
 
 /-! The instantiation of the list models with the facts regenerated from the source. -/
 namespace VaxisModel.Model.SimpleList
@@ -19,11 +20,78 @@ def gen : Rhs where
 end VaxisModel.Model.SimpleList
 
 namespace VaxisModel.Model.DynList
+open VaxisModel.Model.GoSyn
+
+/-! The five repair facts are READ OFF the regenerated statement skeletons `Gen.DynSkel.draw` /
+    `Gen.DynSkel.insertChildren` here (not by the extractor): each recogniser looks for the repaired
+    statement shape, with any local-variable names. -/
+
+/-- `int(x.Surface.Size.Height)`-like operand: `int(<var>)`. -/
+def isIntOfVar : Expr → Bool
+  | .arg (.call (.var "int")) (.var _) => true
+  | _ => false
+
+def isGap : Expr → Bool
+  | .var "d.Gap" => true
+  | _ => false
+
+/-- F119: `if d.cursor >= d.scroll.top && int(idx) < len(s.Children) {`. -/
+def recCursorGuard (draw : List Line) : Bool :=
+  draw.any fun l => l.kind == .ifS && match l.e1 with
+    | .bin "&&" (.bin ">=" (.var "d.cursor") (.var "d.scroll.top")) (.bin "<" (.arg (.call (.var "int")) (.var _)) (.arg (.call (.var "len")) (.var _))) => true
+    | _ => false
+
+/-- F119f: `if d.scroll.top == 0 || ah <= 0 { break }` in `insertChildren`. -/
+def recInsertStops : List Line → Bool
+  | l :: m :: rest =>
+    (l.kind == .ifS && m.kind == .breakS && m.depth == l.depth + 1 && (match l.e1 with
+      | .bin "||" (.bin "==" (.var "d.scroll.top") (.int 0)) (.bin "<=" (.var _) (.int 0)) => true
+      | _ => false)) || recInsertStops (m :: rest)
+  | _ => false
+
+/-- F119b: `for d.scroll.top > 0 && d.Builder(d.scroll.top, d.cursor) == nil { d.scroll.top -= 1; d.scroll.offset = 0 }`
+    at the top level of `Draw`. -/
+def recClampTop : List Line → Bool
+  | a :: b :: c :: rest =>
+    (a == ⟨0, .forS, .bin "&&" (.bin ">" (.var "d.scroll.top") (.int 0))
+        (.bin "==" (.arg (.arg (.call (.var "d.Builder")) (.var "d.scroll.top")) (.var "d.cursor")) (.var "nil")), .none⟩ &&
+     b == ⟨1, .subAssign, .var "d.scroll.top", .int 1⟩ && c == ⟨1, .assign, .var "d.scroll.offset", .int 0⟩)
+    || recClampTop (b :: c :: rest)
+  | _ => false
+
+/-- F119c, the four sites that count `d.Gap`. -/
+def recGapAbove (draw ins : List Line) : Bool :=
+  -- ah = last.Origin.Row + int(last.Surface.Size.Height) + d.Gap
+  (draw.any fun l => l.kind == .assign && match l.e2 with
+    | .bin "+" (.bin "+" (.var _) h) g => isIntOfVar h && isGap g
+    | _ => false) &&
+  -- if ch.Origin.Row <= 0 && ch.Origin.Row+int(height)+d.Gap > 0
+  (draw.any fun l => l.kind == .ifS && match l.e1 with
+    | .bin "&&" (.bin "<=" (.var _) (.int 0)) (.bin ">" (.bin "+" (.bin "+" (.var _) h) g) (.int 0)) => isIntOfVar h && isGap g
+    | _ => false) &&
+  -- ah -= int(s.Size.Height) + d.Gap
+  (ins.any fun l => l.kind == .subAssign && match l.e2 with
+    | .bin "+" h g => isIntOfVar h && isGap g
+    | _ => false) &&
+  -- row += int(ch.Surface.Size.Height) + d.Gap
+  (ins.any fun l => l.kind == .addAssign && match l.e2 with
+    | .bin "+" h g => isIntOfVar h && isGap g
+    | _ => false)
+
+/-- F119d: `} else if ch.Origin.Row < 0 { adj := -ch.Origin.Row …` in the wants-cursor block. -/
+def recRevealAbove : List Line → Bool
+  | a :: b :: c :: rest =>
+    (a.kind == .elseS && b.kind == .ifS && b.depth == a.depth + 1 && c.kind == .define && c.depth == a.depth + 2 &&
+      (match b.e1, c.e2 with
+       | .bin "<" (.var x) (.int 0), .un "-" (.var y) => x == y
+       | _, _ => false))
+    || recRevealAbove (b :: c :: rest)
+  | _ => false
 
 /-- The repair facts as found in vxfw/list/list.go now. -/
 def genFacts : Facts :=
-  { cursorGuard := Gen.ListFacts.dynCursorGuard, insertStops := Gen.ListFacts.dynInsertStops,
-    clampTop := Gen.ListFacts.dynClampTop, gapAbove := Gen.ListFacts.dynGapAbove,
-    revealAbove := Gen.ListFacts.dynRevealAbove }
+  { cursorGuard := recCursorGuard Gen.DynSkel.draw, insertStops := recInsertStops Gen.DynSkel.insertChildren,
+    clampTop := recClampTop Gen.DynSkel.draw, gapAbove := recGapAbove Gen.DynSkel.draw Gen.DynSkel.insertChildren,
+    revealAbove := recRevealAbove Gen.DynSkel.draw }
 
 end VaxisModel.Model.DynList
